@@ -1020,4 +1020,24 @@ theorem step_reset_out (ops : FlowOps F) (st : SendStream F) (op : Op (F := F))
     · rename_i hc; rw [if_pos hc] at h; cases h
     · rfl
 
+/-! ## progress helpers (used by `Quic.Proofs.C12.new_data_is_transmitted`) -/
+
+open Quic.Stream.DataSender in
+theorem ti_some (s : Sender SimpleFc) (a b pn cap : Nat) (hw : a < s.fc.allowed) (hc : 32 ≤ cap) :
+    ∃ s2 fr, transmitInterval simpleFlow s a b pn cap = (s2, some fr) := by
+  unfold transmitInterval
+  have h65 : min cap 65535 ≠ 0 := by omega
+  have h32 : ¬ (min cap 65535 < 32) := by omega
+  rw [if_neg (by intro h; rcases h with h | h; exact h65 h; exact h32 h.2)]
+  have : ¬ ((simpleFlow.acquire s.fc (intervalEnd cap a b)).2 ≤ a) := by simp [simpleFlow]; omega
+  rw [if_neg this]
+  exact ⟨_, _, rfl⟩
+
+open Quic.Stream.DataSender in
+theorem phaseNew_writes (s : Sender SimpleFc) (pn cap : Nat)
+    (hnew : s.transmissionOffset < s.totalLen) (hw : s.transmissionOffset < s.fc.allowed) (hc : 32 ≤ cap) :
+    (phaseNew simpleFlow s pn cap false true).2.1 ≠ [] ∧ (phaseNew simpleFlow s pn cap false true).2.2.2 = false := by
+  obtain ⟨s2, fr, h⟩ := ti_some s s.transmissionOffset s.totalLen pn cap hw hc
+  simp [phaseNew, hnew, h]
+
 end Quic.Proofs.DataSender
